@@ -99,7 +99,8 @@ class C13(BtProp):
         out = []
         for i in range(n):
             prof = bt_gen.Profile(leaves={"probe": 10}, max_nodes=rng.choice([6, 9, 12]), invalid_policy=0.0,
-                                  w_comp={"Q": 4, "S": 4, "P": 2}, root_kind="comp")
+                                  w_comp={"Q": 4, "S": 4, "P": 2}, root_kind="comp",
+                                  w_outcome=rng.choice([{"R": 40, "S": 35, "F": 25}, {"R": 60, "S": 30, "F": 10}]))
             spec = bt_gen.gen_tree(rng, prof)
             cur = spec
             next_id = 100
@@ -117,6 +118,9 @@ class C13(BtProp):
                     continue
                 # bias the target towards current / running children: any id, weighted to non-root
                 target = rng.choice(ids + [9999]) if rng.random() < 0.9 else cur[1]
+                memkids = [c[1] for m in spec_nodes(cur) if m[0] in ("Q", "S") and m[2] for c in m[3]]
+                if memkids and rng.random() < 0.5:
+                    target = rng.choice(memkids)     # a child a composite with memory may be waiting on
                 sub_prof = bt_gen.Profile(leaves={"probe": 10}, max_nodes=rng.choice([1, 1, 3]), max_depth=2,
                                           invalid_policy=0.0)
                 g = bt_gen.TreeGen(rng, sub_prof)
